@@ -208,6 +208,26 @@ func (c *e2eCtx) newScenario(i int, r *rand.Rand, o proj.Opts, mkcfg func(r *ran
 	if s.oldRev, err = proj.InitRepo(s.dir, s.oldTree, 1700000000); err != nil {
 		return nil, err
 	}
+	// one history in five is DIVERGED: the old revision is the tip of a side branch (the old tree
+	// plus one file of its own), not an ancestor of the new revision
+	if i%5 == 3 {
+		side := map[string]string{}
+		for k, v := range s.oldTree {
+			side[k] = v
+		}
+		side["pkg/l0/zz_side_only.go"] = "package l0\n\n// SideOnly exists only on the side branch.\nfunc SideOnly(a int) int {\n\ta--\n\treturn a\n}\n"
+		if _, err = proj.Git(s.dir, 0, "checkout", "-q", "-b", "side"); err != nil {
+			return nil, err
+		}
+		if s.oldRev, err = proj.Commit(s.dir, side, 1700000050, "side"); err != nil {
+			return nil, err
+		}
+		s.oldTree = side
+		if _, err = proj.Git(s.dir, 0, "checkout", "-q", "-"); err != nil {
+			return nil, err
+		}
+		c.count("history:diverged")
+	}
 	if s.newRev, err = proj.Commit(s.dir, s.newTree, 1700000100, "new"); err != nil {
 		return nil, err
 	}
